@@ -2,30 +2,52 @@
 
 // Harness for C03/C04/C05 (walker + pool).  Sub-commands (argv[1]):
 //
-//	stress <shape> <n> <runs> <failfast 0|1>   ungated zero-latency walks of the real dag.Walker; prints
+//	stress <shape> <n> <runs> <failfast 0|1>   ungated zero-latency walks of the real dag.Walker alone; prints
 //	                                          "ok <runs>" or reports the first anomaly (deps-order, missing completion);
 //	                                          a runtime fatal error or a hang is observed by the caller (exit status / timeout)
+//	pool                                      stdin: one JSON spec per line {id,deps,w,ff,fail,runs,cancel,yield};
+//	                                          ungated walks of the real dag.Walker + the real worker.TaskWorkerPool wired as in
+//	                                          execution/execute.go (walk callback = pool.Run(task)); model-free oracles
+//	                                          (deps first, at most once, <= W concurrently, accounting, Walk returns);
+//	                                          one line per spec: "ok <id> runs=.. ..." | "anomaly <id> run=<r> <what>"
+//	race <ff|cancel> <runs>                   what cmds/build.go does with the map Walk returns when the walk ended through
+//	                                          ctx.Done (fail-fast or interrupt): read it at once, without the walker's mutex,
+//	                                          while tasks are still finishing.  Meant for a -race build.
+//
+// The gated mode lives in inject/zz_gated_test.go (testing/synctest is only available to tests).
 package main
 
 import (
+	"bufio"
 	"context"
+	"encoding/json"
+	"errors"
 	"fmt"
 	"os"
+	"runtime"
 	"strconv"
 	"sync"
 	"sync/atomic"
+	"time"
 
+	tea "github.com/charmbracelet/bubbletea"
+	"go.uber.org/zap"
+	"go.uber.org/zap/zapcore"
+
+	"grog/internal/config"
+	"grog/internal/console"
 	"grog/internal/dag"
 	"grog/internal/label"
 	"grog/internal/model"
+	"grog/internal/worker"
 )
 
 func mk(i int) *model.Target {
 	return &model.Target{Label: label.TargetLabel{Package: "p", Name: fmt.Sprintf("n%d", i)}, IsSelected: true}
 }
 
-// shapes: star (node 0 <- all others), fan (all others <- last), chain, diamondN (0 <- 1..n-2 <- n-1)
-func build(shape string, n int) (*dag.DirectedTargetGraph, []*model.Target, [][]int) {
+func fromDeps(deps [][]int) (*dag.DirectedTargetGraph, []*model.Target) {
+	n := len(deps)
 	ts := make([]*model.Target, n)
 	nodes := make([]model.BuildNode, n)
 	for i := range ts {
@@ -33,13 +55,20 @@ func build(shape string, n int) (*dag.DirectedTargetGraph, []*model.Target, [][]
 		nodes[i] = ts[i]
 	}
 	g := dag.NewDirectedGraphFromTargets(nodes...)
-	deps := make([][]int, n)
-	add := func(from, to int) { // to depends on from
-		if err := g.AddEdge(ts[from], ts[to]); err != nil {
-			panic(err)
+	for i, ds := range deps {
+		for _, d := range ds {
+			if err := g.AddEdge(ts[d], ts[i]); err != nil {
+				panic(err)
+			}
 		}
-		deps[to] = append(deps[to], from)
 	}
+	return g, ts
+}
+
+// shapes: star (node 0 <- all others), fan (all others <- last), chain, diamondN (0 <- 1..n-2 <- n-1)
+func shapeDeps(shape string, n int) [][]int {
+	deps := make([][]int, n)
+	add := func(from, to int) { deps[to] = append(deps[to], from) } // to depends on from
 	switch shape {
 	case "star":
 		for i := 1; i < n; i++ {
@@ -59,12 +88,13 @@ func build(shape string, n int) (*dag.DirectedTargetGraph, []*model.Target, [][]
 			add(i, n-1)
 		}
 	}
-	return g, ts, deps
+	return deps
 }
 
 func stress(shape string, n, runs int, failFast bool) {
+	deps := shapeDeps(shape, n)
 	for r := 0; r < runs; r++ {
-		g, ts, deps := build(shape, n)
+		g, ts := fromDeps(deps)
 		idx := map[label.TargetLabel]int{}
 		for i, t := range ts {
 			idx[t.Label] = i
@@ -104,12 +134,286 @@ func stress(shape string, n, runs int, failFast bool) {
 	fmt.Printf("ok %d\n", runs)
 }
 
+// ---------------------------------------------------------------- walker + pool, ungated
+
+type spec struct {
+	ID     string  `json:"id"`
+	Deps   [][]int `json:"deps"`
+	W      int     `json:"w"`
+	FF     bool    `json:"ff"`
+	Fail   []int   `json:"fail"`
+	Runs   int     `json:"runs"`
+	Cancel int     `json:"cancel"` // 0: never; k>0: cancel the outer context when the k-th task is entered
+	Yield  int     `json:"yield"`  // tasks call runtime.Gosched() this many times (0 = zero latency)
+}
+
+var errFail = errors.New("exit status 3")
+
+func ancestors(deps [][]int) [][]int {
+	n := len(deps)
+	sets := make([]map[int]bool, n)
+	res := make([][]int, n)
+	for i := 0; i < n; i++ { // topologically numbered
+		sets[i] = map[int]bool{}
+		for _, d := range deps[i] {
+			sets[i][d] = true
+			for a := range sets[d] {
+				sets[i][a] = true
+			}
+		}
+		for a := range sets[i] {
+			res[i] = append(res[i], a)
+		}
+	}
+	return res
+}
+
+func newLoggerCtx() (context.Context, *console.Logger) {
+	logger := console.NewFromSugared(zap.NewNop().Sugar(), zapcore.ErrorLevel)
+	return console.WithLogger(context.Background(), logger), logger
+}
+
+func poolRuns(sp spec) string {
+	n := len(sp.Deps)
+	anc := ancestors(sp.Deps)
+	failing := make([]bool, n)
+	for _, f := range sp.Fail {
+		failing[f] = true
+	}
+	unsettled, cancelledRuns, maxSeen := 0, 0, 0
+	for r := 0; r < sp.Runs; r++ {
+		g, ts := fromDeps(sp.Deps)
+		idx := map[label.TargetLabel]int{}
+		for i, t := range ts {
+			idx[t.Label] = i
+		}
+		base, logger := newLoggerCtx()
+		outer, cancel := context.WithCancel(base)
+		pool := worker.NewTaskWorkerPool[dag.CacheResult](logger, sp.W, func(_ tea.Msg) {}, n)
+		pool.StartWorkers(outer)
+
+		okDone := make([]atomic.Bool, n)
+		entries := make([]atomic.Int32, n)
+		var inTask, maxIn, entered, cbIn, cbOut atomic.Int32
+		var bad atomic.Value
+		cb := func(ctx context.Context, node model.BuildNode) (dag.CacheResult, error) {
+			cbIn.Add(1)
+			defer cbOut.Add(1)
+			i := idx[node.GetLabel()]
+			return pool.Run(func(update worker.StatusFunc) (dag.CacheResult, error) {
+				cur := inTask.Add(1)
+				defer inTask.Add(-1)
+				for {
+					m := maxIn.Load()
+					if cur <= m || maxIn.CompareAndSwap(m, cur) {
+						break
+					}
+				}
+				if int(cur) > sp.W {
+					bad.Store(fmt.Sprintf("%d tasks running concurrently with num_workers=%d", cur, sp.W))
+				}
+				if entries[i].Add(1) > 1 {
+					bad.Store(fmt.Sprintf("task of node %d entered twice", i))
+				}
+				for _, a := range anc[i] {
+					if !okDone[a].Load() {
+						bad.Store(fmt.Sprintf("task of node %d entered before its transitive dependency %d completed successfully", i, a))
+					}
+				}
+				if k := entered.Add(1); sp.Cancel > 0 && int(k) == sp.Cancel {
+					cancel()
+				}
+				for y := 0; y < sp.Yield; y++ {
+					runtime.Gosched()
+				}
+				if failing[i] {
+					return dag.CacheMiss, errFail
+				}
+				if ctx.Err() != nil && i%2 == 0 { // half of the tasks notice the cancellation
+					return dag.CacheMiss, ctx.Err()
+				}
+				okDone[i].Store(true)
+				return dag.CacheMiss, nil
+			})
+		}
+		w := dag.NewWalker(g, cb, sp.FF)
+		cm, err := w.Walk(outer)
+		pool.Shutdown() // execute.go: defer workerPool.Shutdown()
+		wasCancelled := outer.Err() != nil
+		if b := bad.Load(); b != nil {
+			cancel()
+			return fmt.Sprintf("anomaly %s run=%d %s", sp.ID, r, b)
+		}
+		if err != nil && !wasCancelled {
+			cancel()
+			return fmt.Sprintf("anomaly %s run=%d Walk returned error %v without cancellation", sp.ID, r, err)
+		}
+		if int(maxIn.Load()) > maxSeen {
+			maxSeen = int(maxIn.Load())
+		}
+		anyFail := len(sp.Fail) > 0
+		early := wasCancelled || (sp.FF && anyFail)
+		if early {
+			// Walk may have returned through ctx.Done while tasks are still finishing: reading the map
+			// now would be the racing read of cmds/build.go (sub-command race); wait for the callbacks
+			settled := false
+			for t := 0; t < 200; t++ {
+				if cbIn.Load() == cbOut.Load() {
+					settled = true
+					break
+				}
+				time.Sleep(100 * time.Microsecond)
+			}
+			if wasCancelled {
+				cancelledRuns++
+			}
+			if !settled {
+				unsettled++ // a job left in the closed pool: its routine never returns (model: orphaned Queued)
+				cancel()
+				continue
+			}
+			time.Sleep(200 * time.Microsecond) // onComplete runs right after the callback returned
+		}
+		// accounting on the completion map
+		for i := 0; i < n; i++ {
+			c, has := cm[ts[i].Label]
+			failedAnc := false
+			for _, a := range anc[i] {
+				if ca, ok := cm[ts[a].Label]; ok && !ca.IsSuccess {
+					failedAnc = true
+				}
+			}
+			if has && c.IsSuccess && !okDone[i].Load() {
+				cancel()
+				return fmt.Sprintf("anomaly %s run=%d node %d recorded as successful but its task did not succeed", sp.ID, r, i)
+			}
+			if has && failedAnc {
+				cancel()
+				return fmt.Sprintf("anomaly %s run=%d node %d completed although a transitive dependency failed", sp.ID, r, i)
+			}
+			if failedAnc && entries[i].Load() > 0 {
+				cancel()
+				return fmt.Sprintf("anomaly %s run=%d node %d ran although a transitive dependency failed", sp.ID, r, i)
+			}
+			if !early {
+				if !has && !failedAnc {
+					cancel()
+					return fmt.Sprintf("anomaly %s run=%d node %d has no completion and no failed transitive dependency (keep-going, no cancellation)", sp.ID, r, i)
+				}
+				if has && c.IsSuccess == failing[i] {
+					cancel()
+					return fmt.Sprintf("anomaly %s run=%d node %d completion success=%v but failing=%v", sp.ID, r, i, c.IsSuccess, failing[i])
+				}
+			}
+		}
+		cancel()
+	}
+	return fmt.Sprintf("ok %s runs=%d maxconc=%d cancelled=%d unsettled=%d", sp.ID, sp.Runs, maxSeen, cancelledRuns, unsettled)
+}
+
+func poolMain() {
+	config.Global.DisableNonDeterministicLogging = true
+	in := bufio.NewScanner(os.Stdin)
+	in.Buffer(make([]byte, 1<<20), 1<<26)
+	out := bufio.NewWriter(os.Stdout)
+	defer out.Flush()
+	for in.Scan() {
+		if len(in.Bytes()) == 0 {
+			continue
+		}
+		var sp spec
+		if err := json.Unmarshal(in.Bytes(), &sp); err != nil {
+			fmt.Fprintf(out, "badspec %v\n", err)
+			continue
+		}
+		fmt.Fprintln(out, poolRuns(sp))
+		out.Flush()
+	}
+}
+
+// ---------------------------------------------------------------- the caller's read of the returned map
+
+// raceRuns: k independent nodes, W = k.  mode ff: fail-fast, node 0 fails at once; mode cancel: the outer
+// context is cancelled when node 0's task runs.  The other tasks do not look at their context (like a
+// cache-hit restore) and succeed a little later.  As soon as Walk returns the caller does what
+// cmds/build.go:195-239 does with the map: GetErrors, TargetSuccessCount, range.
+func raceRuns(mode string, runs int) {
+	config.Global.DisableNonDeterministicLogging = true
+	const k = 6
+	deps := make([][]int, k)
+	lateWrites := 0
+	for r := 0; r < runs; r++ {
+		g, ts := fromDeps(deps)
+		idx := map[label.TargetLabel]int{}
+		for i, t := range ts {
+			idx[t.Label] = i
+		}
+		base, logger := newLoggerCtx()
+		outer, cancel := context.WithCancel(base)
+		pool := worker.NewTaskWorkerPool[dag.CacheResult](logger, k, func(_ tea.Msg) {}, k)
+		pool.StartWorkers(outer)
+		var ready sync.WaitGroup
+		ready.Add(k - 1)
+		var finished atomic.Int32
+		cb := func(ctx context.Context, node model.BuildNode) (dag.CacheResult, error) {
+			i := idx[node.GetLabel()]
+			res, err := pool.Run(func(update worker.StatusFunc) (dag.CacheResult, error) {
+				if i == 0 {
+					ready.Wait() // all others are inside their tasks
+					if mode == "cancel" {
+						cancel()
+						return dag.CacheMiss, context.Canceled
+					}
+					return dag.CacheMiss, errFail
+				}
+				ready.Done()
+				<-ctx.Done() // the walk is being cancelled ...
+				for y := 0; y < i*3; y++ {
+					runtime.Gosched()
+				}
+				return dag.CacheHit, nil // ... but this task completes (restore in progress, command just done)
+			})
+			finished.Add(1)
+			return res, err
+		}
+		w := dag.NewWalker(g, cb, mode == "ff")
+		cm, _ := w.Walk(outer)
+		pool.Shutdown()
+		// cmds/build.go
+		before := len(cm)
+		errs := cm.GetErrors()
+		succ, hits := cm.TargetSuccessCount()
+		cnt := 0
+		for l, c := range cm {
+			_ = l
+			if !c.IsSuccess {
+				cnt++
+			}
+		}
+		_, _, _, _ = errs, succ, hits, cnt
+		for finished.Load() < k {
+			time.Sleep(50 * time.Microsecond)
+		}
+		time.Sleep(100 * time.Microsecond)
+		if len(cm) > before {
+			lateWrites++
+		}
+		cancel()
+	}
+	fmt.Printf("ok race mode=%s runs=%d maps_written_after_return=%d\n", mode, runs, lateWrites)
+}
+
 func main() {
 	switch os.Args[1] {
 	case "stress":
 		n, _ := strconv.Atoi(os.Args[3])
 		runs, _ := strconv.Atoi(os.Args[4])
 		stress(os.Args[2], n, runs, os.Args[5] == "1")
+	case "pool":
+		poolMain()
+	case "race":
+		runs, _ := strconv.Atoi(os.Args[3])
+		raceRuns(os.Args[2], runs)
 	default:
 		fmt.Println("unknown sub-command")
 		os.Exit(2)
